@@ -190,6 +190,9 @@ func ReturnInts(is []int) {
 	// 	intsPool <- is
 	// }
 
+	if verifEnabled && verifPoolPut(0, size, is) {
+		return
+	}
 	intsPool[size].Put(is)
 }
 
@@ -267,6 +270,9 @@ func returnOpOpt(oo *OpOpt) {
 	// 	optPool <- oo
 	// }
 
+	if verifEnabled && verifPoolPut(1, 0, oo) {
+		return
+	}
 	optPool.Put(oo)
 
 	// optPool.Put(unsafe.Pointer(oo))
